@@ -374,10 +374,59 @@ class Explorer:
             finally:
                 self.c = saved_c
             if k2 != k:
+                # The walk (snapshot/restore of one system) and a plain run on a fresh system disagree.  Either the harness's
+                # snapshot misses something (a harness fault), or the code under test keeps state OUTSIDE the system (class
+                # attributes, shared default arguments, module tables), so that what a freshly built system does depends on
+                # what other systems did before.  Decide by evidence: a second fresh system, built after the first one ran.
+                c3, st3 = self._mk()
+                init3 = st3.snapshot()
+                c4, st4 = self._mk()
+                init4 = st4.snapshot()
+                for x in tr:
+                    with quiet():
+                        self.step(c3, x)
+                self.c = c3
+                try:
+                    k3 = self._key(st3, (st3.snapshot(), self.extra_state(c3)))
+                finally:
+                    self.c = saved_c
+                c5, st5 = self._mk()
+                init5 = st5.snapshot()
+                if k3 != k2 or init3 != init4 or init5 != init4:
+                    self.violations.append(('replay', tr, {
+                        'sigkey': 'history_dependent',
+                        'note': 'two freshly built systems do not behave alike: the power-up state or the result of this '
+                                'input sequence depends on what other systems in the process did before',
+                        'fresh_runs_agree': k3 == k2, 'power_up_states_agree': init3 == init4 == init5}))
+                    return
                 raise HarnessError('replay on fresh system diverged from snapshot/restore for trace %r' % (tr,))
             self.validated += 1
             if len(self.sample_traces) < 3 and tr:
                 self.sample_traces.append([list(x) if isinstance(x, tuple) else x for x in tr])
+
+
+def replay_history_dependence(build, free_of, step, trace):
+    """Plain replay for a 'history_dependent' violation: three systems are built one after the other, the trace is run on
+    the first and the third; power-up snapshots and end states must be pairwise equal.
+    build() -> context; free_of(c) -> (system, free wires); step(c, x)."""
+    ctxs, inits, ends = [], [], []
+    for i in range(3):
+        with quiet():
+            c = build()
+        sys_, free = free_of(c)
+        st = SysState(sys_, free=free)
+        inits.append(st.snapshot())
+        if i != 1:
+            for x in trace:
+                with quiet():
+                    step(c, tuple(x) if isinstance(x, list) else x)
+            ends.append(st.key(st.snapshot()))
+        ctxs.append(c)
+    same_init = inits[0] == inits[1] == inits[2]
+    same_end = ends[0] == ends[1]
+    return {'trace': trace, 'power_up_states_agree': same_init, 'fresh_runs_agree': same_end,
+            'violates': not (same_init and same_end),
+            'note': 'a freshly built system must not depend on what other systems in the process did before'}
 
 
 def replay_trace(build, step, trace, observe):
